@@ -8,7 +8,7 @@ from typing import Dict, List, Optional, Set, Tuple
 from ..cfg import CFG, Node, solve_forward
 from ..kinds import node_containing
 from ..model import AnalysisError, Unfoldable, attr_chain, norm, short, walk_local
-from ..pmodel import ParserModel
+from ..pmodel import LEX_CONSUME, ParserModel
 from ..report import Ctx
 
 LEVEL = "linear-use / who-may-call / must-pass-through rules on the pending doc text"
@@ -156,6 +156,47 @@ def run(ctx: Ctx) -> None:
                     guarded = _under_none_test(cfg, n, "doxygen")
                     ctx.ob("R11.3", f"parser:CxxParser.{fname}|get_doxygen_after()", fname in ("_parse_field", "_parse_enumerator_list") and guarded,
                            msg="the trailing-comment scan is used outside the field/enumerator parsers or without the `doxygen is None` guard (a leading block must win)", node=c, mod=mod)
+    # ---------------------------------------------------------------- R11.6
+    # The trailing scan looks at what is left of the current line.  It finds the comment
+    # that trails the declaration only if the declaration's own tokens have been consumed:
+    # a token-consuming call between the lookup and the construction of the documented
+    # object means the rest of the declaration (initializer, value) can push the comment
+    # onto a later line, where the scan does not look and the next declaration picks it up.
+    ctx.rule("R11.6", "the trailing-doc lookup comes after the declaration's last own token: no consuming call between it and the documented object", minimum=2)
+    mayc = pm.may_consume()
+    for fname, fn in pm.methods.items():
+        cfg = pm.cfg(fname)
+        for n in cfg.nodes:
+            for c, r in pm.node_calls(fname, n):
+                if r != ("lex", "get_doxygen_after"):
+                    continue
+                tgt = [t.id for t in getattr(n.stmt, "targets", []) if isinstance(t, ast.Name)]
+                var = tgt[0] if tgt else "doxygen"
+                # forward walk until the variable is consumed by a documented object (or rebound)
+                offenders = []
+                seen = set()
+                st = [s for s, lab in n.succ if lab != "exc"]
+                while st:
+                    x = st.pop()
+                    if x.id in seen:
+                        continue
+                    seen.add(x.id)
+                    if x.kind == "stmt" and isinstance(x.stmt, ast.Raise):
+                        continue  # an error path documents nothing
+                    calls = pm.node_calls(fname, x)
+                    uses = any(_ctor_consumes(cc, var, doc_classes) for cc, _ in calls)
+                    for cc, rr in calls:
+                        if rr is not None and ((rr[0] == "lex" and rr[1] in LEX_CONSUME) or (rr[0] == "self" and rr[1] in mayc)):
+                            offenders.append(cc)
+                    if uses or x is n:
+                        continue
+                    if x.kind == "stmt" and isinstance(x.stmt, ast.Assign) and any(isinstance(t, ast.Name) and t.id == var for t in x.stmt.targets):
+                        continue
+                    st.extend(s for s, lab in x.succ if lab != "exc")
+                uniq = sorted({short(o, 40) for o in offenders})
+                ctx.ob("R11.6", f"parser:CxxParser.{fname}|tokens consumed after get_doxygen_after()", not uniq,
+                       msg=f"{fname} keeps consuming the declaration's tokens after the trailing-doc lookup ({', '.join(uniq[:4])}): a comment that trails the declaration on a later line than the lookup point is missed and falls to the next declaration",
+                       node=c, mod=mod)
     # aliases of the getters are only called where they are bound (parse binds get_doxygen locally) - covered by resolve()
 
     # ---------------------------------------------------------------- R11.4
@@ -189,7 +230,7 @@ def run(ctx: Ctx) -> None:
 
     # ---------------------------------------------------------------- R11.5
     ctx.rule("R11.5", "comment scans: every comment token recorded, NEWLINE clears the leading scan, real tokens are kept", minimum=5)
-    for qual in ("LexerTokenStream.get_doxygen", "LexerTokenStream.get_doxygen_after"):
+    for qual in ("LexerTokenStream.get_doxygen",):
         fn = lex.func(qual)
         cfg = CFG(fn)
         ctest = [n for n in cfg.nodes if n.kind == "test" and n.cond is not None and "COMMENT_SINGLELINE" in norm(n.cond) and "COMMENT_MULTILINE" in norm(n.cond)]
@@ -215,36 +256,43 @@ def run(ctx: Ctx) -> None:
     ctx.ob("R11.5", "lexer:LexerTokenStream.get_doxygen|real token pushed back", "tokbuf.appendleft(tok)" in txt,
            msg="the first real token is not pushed back", node=gd, mod=lex, nontrivial=False)
     ga = lex.func("LexerTokenStream.get_doxygen_after")
-    acfg = CFG(ga)
-    pops = [n for n in acfg.nodes if n.kind == "stmt" and isinstance(n.stmt, ast.Assign) and norm(n.stmt.value).endswith(".popleft()")]
-    ok = len(pops) == 1
-    why = "trailing scan anchor vanished"
-    if ok:
-        keep_nodes = [n for n in acfg.nodes if n.kind == "stmt" and isinstance(n.stmt, ast.Expr) and isinstance(n.stmt.value, ast.Call) and norm(n.stmt.value.func) in ("new_tokbuf.append", "comments.append")]
-        nltests = [n for n in acfg.nodes if n.kind == "test" and n.cond is not None and norm(n.cond) == "tok.type == 'NEWLINE'"]
-        # from the pop, every path reaches a keep node or the NEWLINE T-edge
-        def stop(x):
-            return x in keep_nodes
-        leak = False
-        seen = set()
-        st = [(s, False) for s, lab in pops[0].succ if lab != "exc"]
-        while st:
-            x, _ = st.pop()
-            if x.id in seen or stop(x):
-                continue
-            seen.add(x.id)
-            if x is pops[0] or x is acfg.exit or (x.kind == "test" and x.loop is not None):
-                leak = True
-                break
-            for s, lab in x.succ:
-                if lab == "exc":
-                    continue
-                if x in nltests and lab == "T":
-                    continue
-                st.append((s, False))
-        ok = not leak and "new_tokbuf.extend(tokbuf)" in norm(ga) and "self.tokbuf = new_tokbuf" in norm(ga)
-        why = "the trailing scan can drop a token that is neither a comment nor the terminating NEWLINE, or does not re-queue the rest of the buffer"
-    ctx.ob("R11.5", "lexer:LexerTokenStream.get_doxygen_after|non-comment tokens re-queued", ok, msg=why, node=ga, mod=lex)
+    from ..scanloop import walks, REPRESENTATIVES
+    ws, _, _ = walks(lex)
+    by: Dict[str, list] = {}
+    for w in ws:
+        by.setdefault(w.cls, []).append(w)
+    ctx.extra["trailing_scan_walks"] = {k: sorted({(w.outcome, w.recorded, w.kept) for w in v}) for k, v in by.items()}
+    for cname, v in sorted(by.items()):
+        ttype, value = REPRESENTATIVES[cname]
+        if ttype == "NEWLINE":
+            bad = [w for w in v if w.outcome != "leave"]
+            ctx.ob("R11.5", "lexer:LexerTokenStream.get_doxygen_after|a line end stops the scan", not bad,
+                   msg="the trailing scan continues past a NEWLINE token: a doc comment on a following line is attributed to the finished declaration", node=ga, mod=lex)
+        elif cname.startswith("doc"):
+            bad = [w for w in v if not w.recorded]
+            ctx.ob("R11.5", f"lexer:LexerTokenStream.get_doxygen_after|{cname} recorded", not bad,
+                   msg=f"the trailing scan can pass a {cname} without recording it (tests at lines {bad[0].trail if bad else ()}): the trailing documentation is lost", node=ga, mod=lex)
+        elif cname.startswith("plain"):
+            bad = [w for w in v if w.outcome == "continue" and not w.recorded]
+            ctx.ob("R11.5", f"lexer:LexerTokenStream.get_doxygen_after|{cname} recorded or ends the scan", not bad,
+                   msg=f"the trailing scan continues past a {cname} without recording it", node=ga, mod=lex, nontrivial=False)
+        elif cname.startswith("real"):
+            bad = [w for w in v if not w.kept]
+            ctx.ob("R11.5", f"lexer:LexerTokenStream.get_doxygen_after|{cname} re-queued", not bad,
+                   msg=f"the trailing scan can drop a {cname}", node=ga, mod=lex)
+    txt_ga = norm(ga)
+    ctx.ob("R11.5", "lexer:LexerTokenStream.get_doxygen_after|rest of the buffer re-queued", "new_tokbuf.extend(tokbuf)" in txt_ga and "self.tokbuf = new_tokbuf" in txt_ga,
+           msg="the trailing scan does not put the unscanned rest of the buffer back", node=ga, mod=lex, nontrivial=False)
+
+    # ---------------------------------------------------------------- R11.7
+    ctx.rule("R11.7", "the trailing scan crosses a line end only through a documentation comment", minimum=2)
+    for cname, v in sorted(by.items()):
+        ttype, value = REPRESENTATIVES[cname]
+        if cname.startswith("plain") and value.endswith("\n"):
+            bad = [w for w in v if w.outcome == "continue"]
+            ctx.ob("R11.7", f"lexer:LexerTokenStream.get_doxygen_after|{cname}", not bad,
+                   msg=f"comment tokens carry their line end, so after a {cname} the trailing scan goes on into the next line (tests at lines {bad[0].trail if bad else ()}): the doc block above the NEXT declaration is attributed to the finished one, which a non-documentation comment must never cause",
+                   node=ga, mod=lex)
     first = ga.body[0] if not (isinstance(ga.body[0], ast.Expr) and isinstance(ga.body[0].value, ast.Constant)) else ga.body[1]
     early = [s for s in walk_local(ga) if isinstance(s, ast.If) and norm(s.test) in ("not tokbuf", "not self.tokbuf")]
     ctx.ob("R11.5", "lexer:LexerTokenStream.get_doxygen_after|nothing after a line end", bool(early), msg="the trailing scan no longer stops when the statement is followed directly by a line end", node=ga, mod=lex, nontrivial=False)
